@@ -70,6 +70,7 @@ pub(crate) mod kani_verif {
     use crate::hss::parameter::HssParameter;
     use crate::hss::reference_impl_private_key::{CompressedParameterSet, CompressedUsedLeafsIndexes, Seed, SeedAndLmsTreeIdentifier};
     use crate::lms::LmsKeyPair;
+    use crate::LmsAlgorithm;
     use core::sync::atomic::{AtomicU8, AtomicUsize, Ordering};
 
     type HF = Sha256_128;
@@ -321,4 +322,151 @@ pub(crate) mod kani_verif {
     from_harness!(c03_from_l3, 3);
     // @h name=c03_from_l8 props=C03,C07,C01,C05,C13 tier=thorough kind=proved cfg=w8 timeout=7200 funcs=HssPrivateKey::from contract="same, L=8"
     from_harness!(c03_from_l8, 8);
+
+    // ================================================================== C10/C11: aux front end (get_expanded_aux_data)
+    /// total for every buffer; a fresh buffer (first byte 0) is shrunk to the hash-sigs length, zeroed and marked, and only
+    /// then used as a cache; an in-use buffer is only accepted through the MAC check of hss_expand_aux_data
+    fn check_aux_front<const CAPB: usize>() {
+        let mut store: [u8; CAPB] = kani::any();
+        let len: usize = kani::any();
+        kani::assume(len <= CAPB);
+        let first_zero = len == 0 || store[0] == 0;
+        let mut rk = ReferenceImplPrivateKey::<HF>::default();
+        let sb: [u8; 16] = kani::any();
+        rk.seed.as_mut_slice().copy_from_slice(&sb);
+        let top = LmsAlgorithm::from(any_lms_code(true) as u32).construct_parameter::<HF>().unwrap();
+        let mut slice: &mut [u8] = &mut store[..len];
+        let used = hss_is_aux_data_used(slice);
+        assert!(used == !first_zero, "in use iff non-empty and first byte non-zero");
+        let want_len = if len == 0 { 0 } else { hss_get_aux_data_len(len, top) };
+        let want_level = hss_optimal_aux_level(want_len, top, None);
+        let r = HssPrivateKey::<HF>::get_expanded_aux_data(Some(&mut slice), &rk, &top, used);
+        if len == 0 {
+            assert!(r.is_none(), "empty buffer: no aux data, no panic");
+        } else if !used {
+            match r {
+                None => assert!(want_level == 0, "too small for any level: ignored"),
+                Some(e) => {
+                    assert!(e.level == want_level && want_level != 0, "level word of the hash-sigs rule");
+                    let mut lv = 0;
+                    while lv <= crate::constants::MAX_TREE_HEIGHT {
+                        if let Some(d) = e.data[lv].as_ref() {
+                            assert!(d.iter().all(|b| *b == 0), "a fresh buffer is zeroed before it is used as cache");
+                        }
+                        lv += 1;
+                    }
+                }
+            }
+        }
+        kani::cover!(len > 40 && !used, "fresh buffer with a cached level reachable");
+        kani::cover!(used, "in-use buffer reachable");
+    }
+    // @h name=c10_aux_front_n16 props=C10,C11 tier=quick kind=proved cfg=w8 timeout=2400 funcs=HssPrivateKey::get_expanded_aux_data;hss_is_aux_data_used;hss_get_aux_data_len;hss_store_aux_marker contract="every buffer of length 0..100 and every content: no panic; fresh buffers are shrunk, zeroed and marked before use (stale contents never read back); in-use buffers go through the MAC check (compute_hmac by contract)"
+    #[kani::proof]
+    #[kani::stub(zeroize::optimization_barrier, no_barrier)]
+    #[kani::stub(<[u8; 32] as tinyvec::Array>::default, fast_default)]
+    #[kani::stub(crate::hss::aux::compute_seed_derive, crate::hss::aux::kani_verif::stub_seed_derive)]
+    #[kani::stub(crate::hss::aux::compute_hmac, crate::hss::aux::kani_verif::stub_hmac)]
+    #[kani::unwind(110)]
+    fn c10_aux_front_n16() {
+        check_aux_front::<100>();
+    }
+
+    // ================================================================== C11: key generation front end
+    use crate::hss::hss_keygen;
+    /// parameter lists of length 0..10: error for 0 and for more than MAX_ALLOWED_HSS_LEVELS levels, never a panic;
+    /// accepted lists give a key blob with the documented layout (tree generation by contract)
+    fn check_keygen_len<const L: usize>() {
+        let mut params = [HssParameter::<HF>::new(crate::LmotsAlgorithm::LmotsW8, crate::LmsAlgorithm::LmsH5); L];
+        let mut i = 0;
+        while i < L {
+            params[i] = HssParameter::<HF>::new(crate::LmotsAlgorithm::LmotsW8, LmsAlgorithm::from(any_lms_code(true) as u32));
+            i += 1;
+        }
+        let sb: [u8; 16] = kani::any();
+        let mut seed = Seed::<HF>::default();
+        seed.as_mut_slice().copy_from_slice(&sb);
+        let r = hss_keygen::<HF>(&params, &seed, None);
+        if L == 0 || L > MAX_ALLOWED_HSS_LEVELS {
+            assert!(r.is_err(), "empty and over-long parameter lists are refused with an error");
+        } else {
+            let was_ok = r.is_ok();
+            assert!(was_ok, "lists within the limits are accepted");
+            let (sk, vk) = r.unwrap();
+            assert!(sk.as_slice().len() == 32 && sk.as_slice()[..8] == [0u8; 8] && sk.as_slice()[16..] == sb, "private key blob: counter 0, parameter bytes, seed");
+            assert!(vk.as_slice().len() == 4 + 24 + 16 && vk.as_slice()[..4] == (L as u32).to_be_bytes(), "public key: u32(L) || LMS public key");
+            assert!(vk.as_slice()[4..8] == params[0].get_lms_parameter().get_type_id().to_be_bytes()
+                && vk.as_slice()[8..12] == params[0].get_lmots_parameter().get_type_id().to_be_bytes(), "type codes of the top level");
+        }
+        kani::cover!(true, "reachable");
+    }
+    macro_rules! keygen_harness {
+        ($name:ident, $l:expr) => {
+            #[kani::proof]
+            #[kani::stub(zeroize::optimization_barrier, no_barrier)]
+            #[kani::stub(<[u8; 32] as tinyvec::Array>::default, fast_default)]
+            #[kani::stub(crate::hss::reference_impl_private_key::ReferenceImplPrivateKey::generate_root_seed_and_lms_tree_identifier, stub_root_seed)]
+            #[kani::stub(crate::lms::generate_key_pair, stub_key_pair)]
+            #[kani::unwind(40)]
+            fn $name() {
+                check_keygen_len::<$l>();
+            }
+        };
+    }
+    // @h name=c11_keygen_len0 props=C11,C08 tier=quick kind=proved cfg=w8 timeout=1800 funcs=hss_keygen;ReferenceImplPrivateKey::generate;CompressedParameterSet::from;HssPublicKey::from;HssPublicKey::to_binary_representation;SigningKey::from_bytes;VerifyingKey::from_bytes contract="keygen with an empty parameter list: Err, no panic"
+    keygen_harness!(c11_keygen_len0, 0);
+    // @h name=c11_keygen_len1 props=C11,C08 tier=quick kind=proved cfg=w8 timeout=1800 funcs=hss_keygen;HssPublicKey::from;HssPublicKey::to_binary_representation contract="1 level: Ok; private blob = be64(0)||param bytes||seed; public key = u32(L)||u32(lms)||u32(lmots)||I||T[1] (tree generation by contract)"
+    keygen_harness!(c11_keygen_len1, 1);
+    // @h name=c11_keygen_len8 props=C11,C08 tier=quick kind=proved cfg=w8 timeout=1800 funcs=hss_keygen contract="8 levels: Ok"
+    keygen_harness!(c11_keygen_len8, 8);
+    // @h name=c11_keygen_len9 props=C11,C14 tier=quick kind=proved cfg=w8 timeout=1800 funcs=hss_keygen;CompressedParameterSet::from contract="9 levels: Err, no panic"
+    keygen_harness!(c11_keygen_len9, 9);
+    // @h name=c11_keygen_len10 props=C11,C14 tier=thorough kind=proved cfg=w8 timeout=1800 funcs=hss_keygen;CompressedParameterSet::from contract="10 levels: Err, no panic"
+    keygen_harness!(c11_keygen_len10, 10);
+    // @h name=c11_keygen_len4 props=C11,C08 tier=thorough kind=proved cfg=w8 timeout=1800 funcs=hss_keygen contract="4 levels: Ok"
+    keygen_harness!(c11_keygen_len4, 4);
+
+    // ================================================================== C14: parameter lists against the build limits
+    /// keygen accepts exactly the lists within (level count, per-level max height, per-level min Winternitz) of the build
+    fn check_limits<const L: usize>() {
+        let mut params = [HssParameter::<HF>::new(crate::LmotsAlgorithm::LmotsW8, crate::LmsAlgorithm::LmsH5); L];
+        let mut within = L >= 1 && L <= MAX_ALLOWED_HSS_LEVELS;
+        let mut i = 0;
+        while i < L {
+            let lc = any_lms_code(true);
+            let wc = any_lmots_code();
+            params[i] = HssParameter::<HF>::new(crate::LmotsAlgorithm::from(wc as u32), LmsAlgorithm::from(lc as u32));
+            if i < MAX_ALLOWED_HSS_LEVELS {
+                within = within && spec_height_of_lms_code(lc).unwrap() as usize <= crate::constants::TREE_HEIGHTS[i]
+                    && spec_w_of_lmots_code(wc).unwrap() as usize >= crate::constants::WINTERNITZ_PARAMETERS[i];
+            }
+            i += 1;
+        }
+        let seed = Seed::<HF>::default();
+        let r = hss_keygen::<HF>(&params, &seed, None);
+        assert!(r.is_ok() == within, "accepted iff the list is within the limits of this build; otherwise an error, never a panic");
+        kani::cover!(within, "accepted list reachable");
+        kani::cover!(!within, "refused list reachable");
+    }
+    macro_rules! limits_harness {
+        ($name:ident, $l:expr) => {
+            #[kani::proof]
+            #[kani::stub(zeroize::optimization_barrier, no_barrier)]
+            #[kani::stub(<[u8; 32] as tinyvec::Array>::default, fast_default)]
+            #[kani::stub(crate::hss::reference_impl_private_key::ReferenceImplPrivateKey::generate_root_seed_and_lms_tree_identifier, stub_root_seed)]
+            #[kani::stub(crate::lms::generate_key_pair, stub_key_pair)]
+            #[kani::unwind(40)]
+            fn $name() {
+                check_limits::<$l>();
+            }
+        };
+    }
+    // @h name=c14_limits_L2small_l1 props=C14,C11 tier=quick kind=proved cfg=L2small timeout=1800 funcs=hss_keygen;CompressedParameterSet::from;CompressedParameterSet::to contract="build with limits 2 levels, heights (10,5), W (4,8): keygen Ok iff every level is within its height / Winternitz limit; all 1-level lists"
+    limits_harness!(c14_limits_L2small_l1, 1);
+    // @h name=c14_limits_L2small_l2 props=C14,C11 tier=quick kind=proved cfg=L2small timeout=1800 funcs=hss_keygen;CompressedParameterSet::from;CompressedParameterSet::to contract="same, all 2-level lists"
+    limits_harness!(c14_limits_L2small_l2, 2);
+    // @h name=c14_limits_L2small_l3 props=C14,C11 tier=quick kind=proved cfg=L2small timeout=1800 funcs=hss_keygen;CompressedParameterSet::from contract="same, 3-level lists (beyond the level limit): Err"
+    limits_harness!(c14_limits_L2small_l3, 3);
+    // @h name=c14_limits_default_l2 props=C14,C11 tier=thorough kind=proved cfg=w8 timeout=1800 funcs=hss_keygen contract="W8-minimum build, 2-level lists"
+    limits_harness!(c14_limits_default_l2, 2);
 }
